@@ -5,6 +5,7 @@ import (
 	"verif/mcx"
 	_ "verif/props/c02"
 	_ "verif/props/c03"
+	_ "verif/props/c05"
 	_ "verif/props/c06"
 	_ "verif/props/c07"
 	_ "verif/props/c17"
